@@ -355,6 +355,17 @@ class TreeLikelihoodModel(CallableModel):
 
         return log_p
 
+    def _underflowed(self, log_p, frequencies, probs) -> bool:
+        """Check whether the plain evaluation underflowed.
+
+        A site likelihood that is zero gives an infinite log likelihood; one that
+        is subnormal gives a finite but inaccurate log likelihood.
+        """
+        root_partials = self.partials[self.tree_model.postorder[-1][0]]
+        site_likelihoods = frequencies @ torch.sum(probs * root_partials, -3)
+        tiny = torch.finfo(site_likelihoods.dtype).tiny
+        return bool(torch.any(torch.isinf(log_p)) or torch.any(site_likelihoods < tiny))
+
     def calculate_with_tip_partials(self, mats, frequencies, probs):
         if self.rescale:
             log_p = calculate_treelikelihood_discrete_rescaled(
@@ -375,7 +386,7 @@ class TreeLikelihoodModel(CallableModel):
                 probs,
             )
 
-            if torch.any(torch.isinf(log_p)):
+            if self._underflowed(log_p, frequencies, probs):
                 self.rescale = True
                 log_p = calculate_treelikelihood_discrete_safe(
                     self.partials,
@@ -408,7 +419,7 @@ class TreeLikelihoodModel(CallableModel):
                 probs,
             )
 
-            if torch.any(torch.isinf(log_p)):
+            if self._underflowed(log_p, frequencies, probs):
                 self.rescale = True
                 log_p = calculate_treelikelihood_tip_states_discrete_rescaled(
                     self.partials,
